@@ -269,9 +269,10 @@ def rule_fill(ctx):
     fb = ctx.fn(MV + 'is_boolean_array')
     evb = run(ctx, fb)
     VB = P_(fb.params[0])
-    rb = [p.value for p in ret_paths(evb)]
-    if len(rb) != 1:
-        ctx.undecide('R4', 'is_boolean_array: expected a single boolean expression')
+    rpaths = list(ret_paths(evb))
+    rb = [p.value for p in rpaths]
+    if not rb:
+        ctx.undecide('R4', 'is_boolean_array: no returning path')
     else:
         table = {'bool ndarray': (True, False, True, True), 'bool DimArray': (False, True, True, True), 'int ndarray': (True, False, False, False),
                  'float DimArray': (False, True, False, False), 'list / scalar': (False, False, None, False)}
@@ -295,9 +296,22 @@ def rule_fill(ctx):
                 if atom[0] == 'call' and T.dotted(atom[1]) == 'hasattr' and atom[2][:1] == (VB,):
                     return is_nd or is_da
                 return None
-            got = truth(rb[0], decide)
+            if len(rpaths) == 1:
+                got = truth(rb[0], decide)
+            else:
+                # several returns (guard clauses): the answer of the one path whose guards hold for this kind of argument
+                live = []
+                for p_ in rpaths:
+                    gs = [(truth(a_, decide), pol_) for a_, pol_ in p_.guards]
+                    if any(t_ is not None and t_ != pol_ for t_, pol_ in gs):
+                        continue
+                    live.append((p_, all(t_ is not None for t_, _ in gs)))
+                got = None
+                if len(live) == 1 and live[0][1]:
+                    v_ = live[0][0].value
+                    got = v_[1] if v_[0] == 'const' and isinstance(v_[1], bool) else truth(v_, decide)
             if got is None:
-                ctx.undecide('R4', 'is_boolean_array(%s): %s not evaluable' % (inst, T.show(rb[0])[:100]))
+                ctx.undecide('R4', 'is_boolean_array(%s): %s not evaluable' % (inst, ' | '.join(T.show(x)[:60] for x in rb)[:140]))
                 okb = False
             elif got != want:
                 ctx.violated('R4', fb, 'is_boolean_array(%s)' % inst, 'is_boolean_array answers %s for a %s (expected %s): %s' % (
